@@ -252,6 +252,8 @@ _EXTRA = ['from s"SELECT [a x], b FROM t"\nderive c = 1\n', 'from s"SELECT \\"a\
           "# helpers\n@{binding_strength=11}\nlet plus_one = x -> x + 1\nfrom t\ntake 3\nselect (plus_one a) * 2\n",
           "# helpers\n#! adds one\nlet plus_one = x -> x + 1\nfrom t\ntake 3\nselect {b = plus_one a}\n"]
 
+_ADJACENT = ["@{binding_strength=11}\nlet plus_one = x -> x + 1\nfrom t\ntake 3\nselect (plus_one a) * 2\n", "#! adds one\nlet plus_one = x -> x + 1\nfrom t\ntake 3\nselect {b = plus_one a}\n"]
+
 
 def sweep():
     import subprocess
@@ -287,6 +289,13 @@ def sweep():
             r1 = replaylib.compile_prql(prog, d)
             r3 = replaylib.compile_prql("prql target:%s\n%s" % (e, prog), d)
             rec("DS1a", "option %s, header %s: %s" % (d, e, prog.split("\n")[0][:60]), r1 != r3, r1[1], r3[1])
+    # a declaration with an annotation / a doc comment DIRECTLY under the header line (obligation DS1h: a finding of the unchanged tree - the header consumes its line break, and the
+    # annotation needs one of its own)
+    for prog in _ADJACENT:
+        d = "sql.mssql"
+        r1 = replaylib.compile_prql(prog, d)
+        r2 = replaylib.compile_prql("prql target:%s\n%s" % (d, prog), None)
+        rec("DS1h", "header %s vs option %s: %s" % (d, d, prog.split("\n")[0][:60]), r1 != r2 or r1[1].startswith("PANIC"), r1[1], r2[1])
     # multi-file project: the header that counts is the one of the file that declares the pipeline
     import tempfile, shutil, os
     w = tempfile.mkdtemp(prefix="verif_proj_")
